@@ -141,7 +141,7 @@ func rewrite(path string, tape bool, st *stats) ([]byte, bool, error) {
 	ast.Inspect(f, func(n ast.Node) bool {
 		switch x := n.(type) {
 		case *ast.SelectorExpr:
-			if isSel(x, syncName, "Mutex") {
+			if isSel(x, syncName, "Mutex") || isSel(x, syncName, "RWMutex") {
 				x.X.(*ast.Ident).Name = "simhook"
 				st.Mutex++
 				changed = true
